@@ -759,6 +759,13 @@ type ValSpec struct {
 	You     uint64 `json:"you"` // staked tokens in YOU (= stake units)
 	Online  bool   `json:"online"`
 	Accept  bool   `json:"accept"`
+	// delegations in effect before the block (the state teDelegationAdd leaves)
+	Delegs []DelegSpec `json:"delegs,omitempty"`
+}
+
+type DelegSpec struct {
+	Key int    `json:"key"` // delegator = key holder
+	You uint64 `json:"you"`
 }
 
 func mainAddrOf(key int) common.Address {
@@ -767,7 +774,7 @@ func mainAddrOf(key int) common.Address {
 
 // staking modes that can end in success, and those whose success detains Inner
 var stkCanSucceed = map[string]bool{"create": true, "create_role": true, "deposit": true, "withdraw": true,
-	"update": true, "update_nothing": true, "status": true, "settle": true, "deleg_add": true, "deleg_sub": true}
+	"update": true, "update_nothing": true, "status": true, "settle": true, "deleg_add": true, "deleg_sub": true, "deleg_settle": true}
 var stkDetains = map[string]bool{"create": true, "create_role": true, "deposit": true, "deleg_add": true}
 
 type MsgSpec struct {
@@ -881,6 +888,12 @@ func newState(accts []Acct, vals []ValSpec) *state.StateDB {
 		if st.CreateValidator(fmt.Sprintf("val%d", v.MainKey), keyAddr[v.OpKey], keyAddr[v.OpKey], params.ValidatorRole(v.Role),
 			pub, pub, token, new(big.Int).SetUint64(v.You), accept, 0, 0, status) == nil {
 			panic("cannot create validator")
+		}
+		for _, d := range v.Delegs {
+			// the delegator's account must exist (UpdateDelegator silently skips a missing one)
+			st.AddBalance(keyAddr[d.Key], new(big.Int))
+			val := st.GetValidatorByMainAddr(mainAddrOf(v.MainKey))
+			st.UpdateDelegation(keyAddr[d.Key], val, new(big.Int).Mul(new(big.Int).SetUint64(d.You), params.StakeUint))
 		}
 	}
 	st.Finalise(true)
@@ -1411,6 +1424,7 @@ func genApply(r *vf.Rng) ApplyCase {
 	}
 	// validators that exist before the block, operated by key holders who can
 	// afford deposits up to the role's MaxStakes
+	focusKey, focusVal := -1, -1
 	if r.Chance(45) {
 		yp := params.Versions[params.YouVersion(c.Version)]
 		if r.Chance(80) {
@@ -1430,17 +1444,35 @@ func genApply(r *vf.Rng) ApplyCase {
 			default:
 				v.You = max - []uint64{5000, 20000, 50000, 100000}[r.Intn(4)]
 			}
-			c.Vals = append(c.Vals, v)
-			rich := new(big.Int).Mul(youUnit, big.NewInt(int64(100000+r.Intn(1900000)))).String()
-			found := false
-			for i := range c.Accts {
-				if common.HexToAddress(c.Accts[i].Addr) == keyAddr[v.OpKey] {
-					c.Accts[i].Bal, found = rich, true
+			enrich := func(key int) {
+				rich := new(big.Int).Mul(youUnit, big.NewInt(int64(100000+r.Intn(1900000)))).String()
+				found := false
+				for i := range c.Accts {
+					if common.HexToAddress(c.Accts[i].Addr) == keyAddr[key] {
+						c.Accts[i].Bal, found = rich, true
+					}
+				}
+				if !found {
+					c.Accts = append(c.Accts, Acct{Addr: keyAddr[key].Hex(), Bal: rich})
 				}
 			}
-			if !found {
-				c.Accts = append(c.Accts, Acct{Addr: keyAddr[v.OpKey].Hex(), Bal: rich})
+			if j == 0 && r.Chance(70) {
+				// one (delegator, validator) pair the block keeps coming back to:
+				// room below the threshold, delegation accepted, often a delegation
+				// already in effect from an earlier period
+				v.Accept = true
+				v.You = max - []uint64{50000, 100000}[r.Intn(2)]
+				focusKey, focusVal = r.Intn(nKeys), v.MainKey
+				if r.Chance(65) {
+					v.Delegs = append(v.Delegs, DelegSpec{Key: focusKey, You: uint64(10 + r.Intn(5000))})
+				}
+				if r.Chance(30) {
+					v.Delegs = append(v.Delegs, DelegSpec{Key: (focusKey + 1) % nKeys, You: uint64(10 + r.Intn(500))})
+				}
+				enrich(focusKey)
 			}
+			c.Vals = append(c.Vals, v)
+			enrich(v.OpKey)
 		}
 	}
 	// nonces / balances at generation time, only to steer the generator
@@ -1556,6 +1588,9 @@ func genApply(r *vf.Rng) ApplyCase {
 				cur := live.st.GetStakingRecordValue(common.Address{}, mainAddrOf(v.MainKey))
 				if cur.Sign() == 0 {
 					cur = new(big.Int).Mul(youUnit, new(big.Int).SetUint64(v.You))
+					if lv := live.st.GetValidatorByMainAddr(mainAddrOf(v.MainKey)); lv != nil {
+						cur = new(big.Int).Set(lv.Token)
+					}
 				}
 				gap := new(big.Int).Sub(max, new(big.Int).Div(cur, youUnit)) // YOU left below the threshold
 				if gap.Sign() < 0 {
@@ -1606,6 +1641,17 @@ func genApply(r *vf.Rng) ApplyCase {
 					}
 					if num(sk.Inner).Sign() == 0 {
 						sk.Inner = "1"
+					}
+				}
+				if focusKey >= 0 && r.Chance(45) {
+					// the same delegator and validator again: add/add, add/sub, sub/add, settle,
+					// with the operator's deposits of the other branch in between
+					k = focusKey
+					m.Key, m.Nonce = k, nonce[k]
+					fm := []string{"deleg_add", "deleg_add", "deleg_add", "deleg_sub", "deleg_settle"}
+					sk = &StkSpec{Mode: fm[r.Intn(len(fm))], MainKey: focusVal, Inner: you(big.NewInt(int64(10 + r.Intn(3000))))}
+					if sk.Mode == "deleg_sub" && r.Bool() {
+						sk.Inner = you(big.NewInt(int64(1 + r.Intn(20))))
 					}
 				}
 				if r.Chance(6) {
@@ -1878,7 +1924,7 @@ func gen(seed uint64, n int, outDir, corpusDir string) {
 	vf.WriteFile(filepath.Join(outDir, "Cases.v"), sb.String())
 	res.Cases = len(coq)
 	res.Distinct = len(distinct)
-	res.Rule = "three kinds of cases. sender: a random transaction (boundary nonces/prices/limits, creation / staking / zero / short recipients, payloads around the RLP length switches) signed with one of 6 keys for a random network id, then left alone, checked under another network id, or changed in exactly one field / V / r / s (high-s twin, flipped recovery bit, unprotected V, V below 35 with the wrapped network id, +2^64, r,s out of range), observed through types.Sender together with the signing hash; sign: types.SignTx output; apply: an account set (6 key holders with boundary balances, plain recipients, 5 kinds of small contracts, creation-address collisions; in 45% of the cases 1-3 validators that exist before the block, at or near MaxStakes/MinStakes of their role, operated by funded key holders), a block gas pool and 1-40 signed transactions all in one staking period (calls, creations, staking messages of every action - create, update, deposit, withdraw, change status, settle, delegation add/sub/settle - with amounts 1 wei, exactly reaching / crossing the role threshold alone or together with earlier messages, around MinDelegationTokens and the whole balance, wrong operator, unknown validator, bad payload; wrong nonces, limits around intrinsic gas / SSTORE thresholds / validator creation gas / the pool, prices and values around the balance, verbatim replays) run through StateProcessor.ApplyTransaction under protocol versions 3-5 with snapshot/revert on error like the miner; a case is non-trivial unless it is an apply sequence without any applied transaction; distinct by full input and observation"
+	res.Rule = "three kinds of cases. sender: a random transaction (boundary nonces/prices/limits, creation / staking / zero / short recipients, payloads around the RLP length switches) signed with one of 6 keys for a random network id, then left alone, checked under another network id, or changed in exactly one field / V / r / s (high-s twin, flipped recovery bit, unprotected V, V below 35 with the wrapped network id, +2^64, r,s out of range), observed through types.Sender together with the signing hash; sign: types.SignTx output; apply: an account set (6 key holders with boundary balances, plain recipients, 5 kinds of small contracts, creation-address collisions; in 45% of the cases 1-3 validators that exist before the block, at or near MaxStakes/MinStakes of their role, operated by funded key holders, with delegations already in effect, and one (delegator, validator) pair that gets several delegation add/sub/settle messages per block), a block gas pool and 1-40 signed transactions all in one staking period (calls, creations, staking messages of every action - create, update, deposit, withdraw, change status, settle, delegation add/sub/settle - with amounts 1 wei, exactly reaching / crossing the role threshold alone or together with earlier messages, around MinDelegationTokens and the whole balance, wrong operator, unknown validator, bad payload; wrong nonces, limits around intrinsic gas / SSTORE thresholds / validator creation gas / the pool, prices and values around the balance, verbatim replays) run through StateProcessor.ApplyTransaction under protocol versions 3-5 with snapshot/revert on error like the miner; a case is non-trivial unless it is an apply sequence without any applied transaction; distinct by full input and observation"
 	for i, c := range res.CaseDescs {
 		if i%97 == 0 && len(res.Samples) < 6 {
 			res.Samples = append(res.Samples, c)
